@@ -156,6 +156,7 @@ class SimFS(object):
         self.bytes_written = 0
         self._saved = None
         self.urls = {}
+        self.url_short_reads = None  # per-read byte limits of served responses (cycled) or None
         self.tmp_counter = 0
         self.opened = []
 
@@ -249,6 +250,14 @@ class SimFS(object):
             "isfile": os.path.isfile,
             "etree_parse": etree.parse,
         }
+        for name in ("replace", "rename", "remove", "unlink", "makedirs", "mkdir"):
+            self._saved["os_" + name] = getattr(os, name)
+        os.replace = self._replace
+        os.rename = self._replace
+        os.remove = self._remove
+        os.unlink = self._remove
+        os.makedirs = self._makedirs
+        os.mkdir = self._makedirs
         builtins.open = self.open
         io.open = self.open
         os.path.exists = self._exists
@@ -275,6 +284,8 @@ class SimFS(object):
         s = self._saved
         if s is None:
             return
+        for name in ("replace", "rename", "remove", "unlink", "makedirs", "mkdir"):
+            setattr(os, name, s["os_" + name])
         builtins.open = s["open"]
         io.open = s["io_open"]
         os.path.exists = s["exists"]
@@ -293,6 +304,31 @@ class SimFS(object):
 
     def installed_ok(self):
         return builtins.open == self.open and io.open == self.open
+
+    def _replace(self, src, dst, *a, **kw):
+        if self.is_sim(src) or self.is_sim(dst):
+            src, dst = os.fspath(src), os.fspath(dst)
+            k = self.bump(dst, "rename")
+            f = self.fault_for(dst, "F3", k) if False else None
+            if src not in self.files:
+                raise FileNotFoundError(_errno.ENOENT, "No such file or directory", src)
+            self.files[dst] = self.files.pop(src)  # atomic replacement
+            return None
+        return self._saved["os_replace"](src, dst, *a, **kw)
+
+    def _remove(self, p, *a, **kw):
+        if self.is_sim(p):
+            p = os.fspath(p)
+            if p not in self.files:
+                raise FileNotFoundError(_errno.ENOENT, "No such file or directory", p)
+            del self.files[p]
+            return None
+        return self._saved["os_remove"](p, *a, **kw)
+
+    def _makedirs(self, p, *a, **kw):
+        if self.is_sim(p):
+            return None
+        return self._saved["os_makedirs"](p, *a, **kw)
 
     def _exists(self, p):
         if self.is_sim(p):
@@ -360,11 +396,32 @@ class SimFS(object):
             raise urllib.error.URLError("simfs: injected network error")
         if u not in self.urls:
             raise urllib.error.URLError("simfs: no such host/resource %s" % u)
-        return _Resp(self.urls[u])
+        r = _Resp(self.urls[u])
+        r.limits, r.fs = self.url_short_reads, self
+        return r
 
 
 class _Resp(io.BytesIO):
+    """Response body.  read() without a size returns everything up to EOF; read(n) may return fewer than n
+    bytes before EOF when the simulation asks for short reads (legal for a stream: only b"" means EOF)."""
+
     status = 200
+    limits = None
+    nreads = 0
+    fs = None
+
+    def read(self, n=-1):
+        if n is None or n < 0 or not self.limits:
+            return io.BytesIO.read(self, n)
+        lim = self.limits[self.nreads % len(self.limits)]
+        self.nreads += 1
+        if lim < n:
+            n = lim
+            if self.fs is not None:
+                self.fs.fired["F7"] = self.fs.fired.get("F7", 0) + 1
+        return io.BytesIO.read(self, n)
+
+    read1 = read
 
     def __enter__(self):
         return self
